@@ -98,6 +98,15 @@ PROPS["C03"] = dict(
 )
 
 PROPS["C15"] = dict(
+    technique="Kani 0.68 (CBMC 6.11 + CaDiCaL) bounded symbolic execution of the real decoders/builders against a reference decoder; PLUS a second "
+              "solver engine for the two list decoders: MIR -> bit-vector cut-point verification conditions decided by z3 (cvc5 cross-check in the "
+              "thorough tier), inductive over loop iterations, translator validated concretely on every run; native replay of counterexamples",
+    level_text="Symbolic checking of the real Rust code by two solver engines. (1) Kani compiles the functions listed in the evidence file to CBMC and "
+               "CaDiCaL decides every assertion for ALL byte strings inside the stated length bounds. (2) For parse_srt_nak and parse_srtla_ack the "
+               "function's MIR is translated to SMT bit-vector verification conditions between loop-head cut points; z3 shows that from ANY state "
+               "satisfying the stated invariant no MIR assert can fail, the invariant is re-established and the count bound holds at return - i.e. "
+               "for byte strings of every length, within 64-bit machine arithmetic. A pass is 'no violation within the stated bounds / under the "
+               "stated environment model', not a proof about the compiler or the container.",
     functions=["srtla_protocol::{get_packet_type, get_srt_sequence_number, is_srt_data_retransmit, is_srtla_reg1, is_srtla_reg2, is_srtla_reg3, "
                "is_srtla_keepalive, is_srt_ack, extract_keepalive_timestamp, extract_keepalive_conn_info, parse_srt_ack, parse_srtla_ack, "
                "parse_srt_nak, create_reg1_packet, create_reg2_packet, create_keepalive_packet, create_keepalive_packet_ext, create_ack_packet}"],
